@@ -27,7 +27,8 @@ MODS = ["AsmjitVerif.Props.C15"]
 WRAP = "-Wl,--wrap=malloc,--wrap=realloc,--wrap=free,--wrap=mmap,--wrap=munmap,--wrap=mprotect,--wrap=shm_open," \
        "--wrap=ftruncate,--wrap=ftruncate64,--wrap=close,--wrap=syscall"
 
-QUICK_WL = ["asm", "a64", "build", "comp", "jit", "jitdual", "cont", "asmretry", "asmbig", "buildbig", "compbig", "jitpools", "buildretry"]
+QUICK_WL = ["asm", "a64", "build", "comp", "jit", "jitdual", "cont", "asmretry", "asmbig", "buildbig", "compbig", "jitpools", "buildretry",
+            "arenahist", "compcf"]
 THOROUGH_WL = QUICK_WL
 CLASSES = ("arena", "heap", "vm")
 
@@ -46,6 +47,8 @@ def harness():
 # PART 2: operations with fault masks (model correspondence + spec monitor)
 # ------------------------------------------------------------------------------------------------
 
+PATS = ["".join("%02x" % ((i * 7 + 3) & 255) for i in range(64)), "".join("%02x" % (i % 8 + 16) for i in range(64)),
+        "".join("%02x" % (200 + i % 4) for i in range(64)), "".join("%02x" % ((i * i + 1) & 255) for i in range(64))]
 NAMES = ["61", "6162", "2e64617461", "6c6f63", "67" * 12, "7a" * 40, "-"]
 
 
@@ -60,7 +63,13 @@ def gen_session(rng, n):
             mask = 1 << rng.randrange(0, 4)
         elif m < 0.6:
             mask = rng.randrange(0, 16)
-        if r < 0.14:
+        if r < 0.07:
+            # ConstPool::add: nested patterns so that gaps, gap recycling and shared sub-constants occur
+            base = PATS[rng.randrange(len(PATS))]
+            size = rng.choice((1, 2, 4, 8, 16, 32, 64, 3))
+            pos = rng.randrange(0, max(1, 64 // size)) * size
+            ops.append("o %x padd %s" % (rng.choice((0, 0, 1, 2, 4, 8, 3, 6, 12, rng.randrange(0, 256))), base[2 * pos:2 * (pos + size)]))
+        elif r < 0.14:
             nm = rng.choice(NAMES)
             al = rng.choice((0, 1, 2, 4, 8, 16, 64, 3, 4096))
             ops.append("o %x sec %s %d %d" % (mask, nm, al, rng.choice((0, 0, 1, -1, 5, -5, 2147483647, -2147483648))))
@@ -204,6 +213,18 @@ def sweep_lines(w, counts, rng, tier):
     return lines
 
 
+SHAPES = {"comp": "RALocalAllocator::init", "compbig": "RALocalAllocator::init", "compcf": "RALocalAllocator::init"}
+
+
+def shape_requests(h, w):
+    """ordinals of the arena requests made inside the function named in SHAPES (symbolised call stacks)"""
+    if w not in SHAPES:
+        return []
+    out, rc, err = vlib.run_lines([str(h)], ["where %s %s" % (w, SHAPES[w])])
+    m = re.search(r" k=([\d,]*)$", out[0]) if out else None
+    return [int(x) for x in m.group(1).split(",") if x] if m else []
+
+
 def run_workload(res, h, w, rng, tier, dist):
     out, rc, err = vlib.run_lines([str(h)], ["count " + w])
     c = parse_counts(out[0]) if out else None
@@ -213,6 +234,18 @@ def run_workload(res, h, w, rng, tier, dist):
         return 0
     dist["requests"][w] = {k: c[k] for k in CLASSES}
     lines = sweep_lines(w, c, rng, tier)
+    must = shape_requests(h, w)
+    if w in SHAPES:
+        dist["shapes"]["%s: arena requests inside %s" % (w, SHAPES[w])] = len(must)
+        have = set(lines)
+        lines += [l for l in ("fault %s arena %d" % (w, k) for k in must) if l not in have]
+        if not must:
+            res.violation("the workload %s no longer reaches %s (generator shape lost)" % (w, SHAPES[w]), {"ops": ["where %s %s" % (w, SHAPES[w])]},
+                          found_input=False, key="corr")
+    if w == "jitdual":
+        dist["shapes"]["jitdual: vm requests (memfd_create, ftruncate, 2 x mmap per block)"] = c["vm"]
+    if w == "arenahist":
+        dist["shapes"]["arenahist: malloc requests (3 growth blocks, replacement after soft reset, dynamic block)"] = c["heap"]
     pos = 0
     recs = []
     done_lines = []
@@ -273,7 +306,7 @@ def run(res):
     generate()
     ok, out = vlib.lean_stage(res, PID, MODS)
     h = harness()
-    dist = {"ops": {}, "answers": {}, "requests_per_op": {}, "requests": {}, "outcomes": {}, "tolerated": {}, "fired": {}}
+    dist = {"ops": {}, "answers": {}, "requests_per_op": {}, "requests": {}, "outcomes": {}, "tolerated": {}, "fired": {}, "shapes": {}}
     res.coverage["input_distribution"] = dist
     # ---- PART 2
     nsess = 240 if res.tier == "quick" else 2400
